@@ -107,3 +107,13 @@ contract(T + 'merge_flows',
          ensures={'union': 'forall(lambda n: (n in self.flow_nums) == '
                            '(old(n in self.flow_nums) or n in flow_nums))'},
          modifies=['self.flow_nums[*]'], props=['C08'])
+
+# which of the selected flows a task is in ("no selection" = all of its flows; a task in no flow matches
+# nothing): what `cylc remove --flow=...` takes off an instance (C30 "removes those flows from it")
+contract(T + 'match_flows',
+         sorts={'self': 'TaskProxy', 'flow_nums': 'set[int]', 'result': 'set[int]'},
+         ensures={'the-selected-flows-the-task-is-in':
+                  'forall(lambda n: (n in result) == (n in self.flow_nums and '
+                  '(len(flow_nums) == 0 or n in flow_nums)))',
+                  'a-new-set': 'result is not self.flow_nums and result is not flow_nums'},
+         pure=True, fresh=True, props=['C08', 'C30'])
